@@ -1,73 +1,875 @@
-//! C29 probe (temporary): confirm the listed defects on the real code.
+//! C29 — vector search returns live, current, correctly ranked nodes.
+//!
+//! Histories of node creations (with / without the indexed label, a vector, a vector of the
+//! wrong dimension, a non-vector value), vector updates, property removals, label additions
+//! and removals, deletions (node ids get recycled) and interleaved searches are run on a real
+//! `GraphStore`, either through Cypher (`QueryEngine`, `CALL db.index.vector.queryNodes`) or
+//! through the `GraphStore` / `VectorIndexManager` API.  For every search the property's own
+//! predicates are evaluated here in Rust against a plain map of the graph and a brute-force
+//! ranking under the index's *declared* metric computed in f64; the case handed to Coq carries
+//! the resulting rank order (integers; distances closer than the tolerance share a rank) as the
+//! model's distance oracle, the node ids given by CREATE, the ids returned by each search and
+//! the index length after every operation.
 use samyama::graph::{GraphStore, Label, NodeId, PropertyValue};
+use samyama::query::executor::Value;
 use samyama::query::QueryEngine;
 use samyama::vector::DistanceMetric;
+use std::collections::{BTreeMap, BTreeSet, HashMap};
+use vh::*;
 
-fn show(engine: &QueryEngine, store: &GraphStore, q: &str) {
-    match engine.execute(q, store) {
-        Ok(b) => {
-            let rows: Vec<String> = b
-                .records
-                .iter()
-                .map(|r| b.columns.iter().map(|c| format!("{}={:?}", c, r.get(c))).collect::<Vec<_>>().join(","))
-                .collect();
-            println!("  {} -> cols {:?} rows {:?}", q, b.columns, rows);
+const L: &str = "Doc";
+const P: &str = "emb";
+
+#[derive(Clone, Copy, Debug, PartialEq)]
+enum Metric {
+    Cosine,
+    L2,
+    Dot,
+}
+
+/// a value for the indexed property
+#[derive(Clone, Debug, PartialEq)]
+enum PV {
+    Vec(usize), // pool index
+    Other(u8),  // 0: string, 1: list with a string in it, 2: map-free boolean
+}
+
+#[derive(Clone, Debug)]
+enum Op {
+    Create(bool, Option<PV>),
+    SetProp(u64, PV),
+    RemoveProp(u64),
+    AddLabel(u64),
+    RemoveLabel(u64),
+    Delete(u64),
+    Search(usize, u64), // query index, k
+    Noise(u64, u8),
+}
+
+#[derive(Clone, Debug)]
+struct Setup {
+    cypher: bool,
+    metric: Metric,
+    dim: usize,
+    pool: Vec<Vec<f32>>,    // stored vectors (any dimension)
+    queries: Vec<Vec<f32>>, // query vectors (any dimension)
+    second_index: bool,     // also declare indexes on (Other, emb) and (Doc, other)
+    variant: u64,           // picks among equivalent spellings
+}
+
+// ---------------- distances in f64 under the declared metric ----------------
+fn d64(metric: Metric, q: &[f32], v: &[f32]) -> f64 {
+    let mut dot = 0.0f64;
+    let mut na = 0.0f64;
+    let mut nb = 0.0f64;
+    let mut l2 = 0.0f64;
+    for (a, b) in q.iter().zip(v.iter()) {
+        let (a, b) = (*a as f64, *b as f64);
+        dot += a * b;
+        na += a * a;
+        nb += b * b;
+        l2 += (a - b) * (a - b);
+    }
+    match metric {
+        Metric::L2 => l2.sqrt(),
+        Metric::Dot => 1.0 - dot,
+        Metric::Cosine => {
+            if na <= 0.0 || nb <= 0.0 {
+                return 1.0; // the code's convention for a zero vector
+            }
+            let sim = dot / (na.sqrt() * nb.sqrt());
+            if !sim.is_finite() {
+                return f64::NAN;
+            }
+            (1.0 - sim.clamp(-1.0, 1.0)).max(0.0)
         }
-        Err(e) => println!("  {} -> ERR {}", q, e),
     }
 }
-fn exec(engine: &QueryEngine, store: &mut GraphStore, q: &str) {
-    match engine.execute_mut(q, store, "default") {
-        Ok(b) => {
-            let rows: Vec<String> = b
-                .records
-                .iter()
-                .map(|r| b.columns.iter().map(|c| format!("{}={:?}", c, r.get(c))).collect::<Vec<_>>().join(","))
-                .collect();
-            println!("  {} -> ok {:?}", q, rows);
-        }
-        Err(e) => println!("  {} -> ERR {}", q, e),
+
+fn tol(d: f64) -> f64 {
+    1e-5 * d.abs().max(1.0)
+}
+
+/// rank table of one query: pool index -> Some(rank) (ties share a rank) / None (non-finite or wrong dimension)
+fn rank_row(s: &Setup, q: &[f32]) -> Vec<Option<u64>> {
+    let mut ds: Vec<(usize, f64)> = Vec::new();
+    let mut row = vec![None; s.pool.len()];
+    if q.len() != s.dim {
+        return row;
     }
+    for (i, v) in s.pool.iter().enumerate() {
+        if v.len() == s.dim {
+            let d = d64(s.metric, q, v);
+            if d.is_finite() {
+                ds.push((i, d));
+            }
+        }
+    }
+    ds.sort_by(|a, b| a.1.partial_cmp(&b.1).unwrap());
+    let mut rank = 0u64;
+    let mut prev: Option<f64> = None;
+    for (i, d) in ds {
+        if let Some(p) = prev {
+            if d - p > tol(d) {
+                rank += 1;
+            }
+        }
+        prev = Some(d);
+        row[i] = Some(rank);
+    }
+    row
+}
+
+// ---------------- Cypher spelling ----------------
+fn f_lit(x: f32, ints_ok: bool) -> String {
+    if ints_ok && x.fract() == 0.0 && x.abs() < 1000.0 {
+        format!("{}", x as i64)
+    } else {
+        format!("{:?}", x as f64)
+    }
+}
+fn vec_lit(v: &[f32], ints_ok: bool) -> String {
+    format!("[{}]", v.iter().map(|x| f_lit(*x, ints_ok)).collect::<Vec<_>>().join(", "))
+}
+fn cypher_ok(v: &[f32]) -> bool {
+    v.iter().all(|x| x.is_finite())
+}
+fn pv_lit(s: &Setup, p: &PV, ints_ok: bool) -> String {
+    match p {
+        PV::Vec(i) => vec_lit(&s.pool[*i], ints_ok),
+        PV::Other(0) => "'hello'".to_string(),
+        PV::Other(1) => "[1.0, 'x']".to_string(),
+        PV::Other(_) => "true".to_string(),
+    }
+}
+fn pv_value(s: &Setup, p: &PV, as_array: bool) -> PropertyValue {
+    match p {
+        PV::Vec(i) => {
+            if as_array {
+                PropertyValue::Array(s.pool[*i].iter().map(|x| PropertyValue::Float(*x as f64)).collect())
+            } else {
+                PropertyValue::Vector(s.pool[*i].clone())
+            }
+        }
+        PV::Other(0) => PropertyValue::String("hello".to_string()),
+        PV::Other(1) => PropertyValue::Array(vec![PropertyValue::Float(1.0), PropertyValue::String("x".to_string())]),
+        PV::Other(_) => PropertyValue::Boolean(true),
+    }
+}
+
+fn int_of(v: Option<&Value>) -> Option<i64> {
+    match v {
+        Some(Value::Property(PropertyValue::Integer(i))) => Some(*i),
+        _ => None,
+    }
+}
+fn float_of(v: Option<&Value>) -> Option<f64> {
+    match v {
+        Some(Value::Property(PropertyValue::Float(f))) => Some(*f),
+        Some(Value::Property(PropertyValue::Integer(i))) => Some(*i as f64),
+        _ => None,
+    }
+}
+
+// ---------------- the implementation under test ----------------
+struct Sut {
+    engine: QueryEngine,
+    store: GraphStore,
+}
+
+enum Obs {
+    Id(u64),
+    Res(Option<Vec<(u64, f64)>>, String), // rows (node id, score) or the error text
+    Nothing,
+}
+
+impl Sut {
+    fn new(s: &Setup) -> Result<Sut, String> {
+        let engine = QueryEngine::new();
+        let mut store = GraphStore::new();
+        if s.cypher {
+            let sim = if s.metric == Metric::L2 { "l2" } else { "cosine" };
+            let q = format!(
+                "CREATE VECTOR INDEX ix FOR (n:{}) ON (n.{}) OPTIONS {{dimensions: {}, similarity: '{}'}}",
+                L, P, s.dim, sim
+            );
+            engine.execute_mut(&q, &mut store, "default").map_err(|e| e.to_string())?;
+        } else {
+            let m = match s.metric {
+                Metric::Cosine => DistanceMetric::Cosine,
+                Metric::L2 => DistanceMetric::L2,
+                Metric::Dot => DistanceMetric::InnerProduct,
+            };
+            store.create_vector_index(L, P, s.dim, m).map_err(|e| e.to_string())?;
+        }
+        if s.second_index {
+            store.create_vector_index("Other", P, s.dim, DistanceMetric::Cosine).map_err(|e| e.to_string())?;
+            store.create_vector_index(L, "other", 2, DistanceMetric::L2).map_err(|e| e.to_string())?;
+        }
+        Ok(Sut { engine, store })
+    }
+
+    fn index_len(&self) -> u64 {
+        match self.store.vector_index.get_index(L, P) {
+            Some(ix) => ix.read().unwrap().len() as u64,
+            None => u64::MAX,
+        }
+    }
+
+    fn run_mut(&mut self, q: &str) -> Result<samyama::query::executor::RecordBatch, String> {
+        self.engine.execute_mut(q, &mut self.store, "default").map_err(|e| e.to_string())
+    }
+
+    fn apply(&mut self, s: &Setup, op: &Op, step: u64) -> Result<Obs, String> {
+        let v = s.variant.wrapping_add(step);
+        if s.cypher {
+            match op {
+                Op::Create(lbl, p) => {
+                    let lab = if *lbl {
+                        if v % 3 == 0 { ":Doc:Tag" } else { ":Doc" }
+                    } else if v % 2 == 0 {
+                        ":Other"
+                    } else {
+                        ""
+                    };
+                    let props = match p {
+                        Some(pv) => format!("{{name: 'n{}', {}: {}}}", step, P, pv_lit(s, pv, v % 5 == 0)),
+                        None => format!("{{name: 'n{}'}}", step),
+                    };
+                    let b = self.run_mut(&format!("CREATE (n{} {}) RETURN id(n)", lab, props))?;
+                    let id = b.records.first().and_then(|r| int_of(r.get("id(n)"))).ok_or("CREATE returned no id")?;
+                    Ok(Obs::Id(id as u64))
+                }
+                Op::SetProp(id, pv) => {
+                    let lit = pv_lit(s, pv, v % 5 == 0);
+                    let q = if v % 4 == 0 {
+                        format!("MATCH (n) WHERE id(n) = {} SET n += {{{}: {}}}", id, P, lit)
+                    } else {
+                        format!("MATCH (n) WHERE id(n) = {} SET n.{} = {}", id, P, lit)
+                    };
+                    self.run_mut(&q)?;
+                    Ok(Obs::Nothing)
+                }
+                Op::RemoveProp(id) => {
+                    let q = if v % 4 == 0 {
+                        format!("MATCH (n) WHERE id(n) = {} SET n = {{name: 'r{}'}}", id, step)
+                    } else {
+                        format!("MATCH (n) WHERE id(n) = {} REMOVE n.{}", id, P)
+                    };
+                    self.run_mut(&q)?;
+                    Ok(Obs::Nothing)
+                }
+                Op::AddLabel(id) => {
+                    self.run_mut(&format!("MATCH (n) WHERE id(n) = {} SET n:{}", id, L))?;
+                    Ok(Obs::Nothing)
+                }
+                Op::RemoveLabel(id) => {
+                    self.run_mut(&format!("MATCH (n) WHERE id(n) = {} REMOVE n:{}", id, L))?;
+                    Ok(Obs::Nothing)
+                }
+                Op::Delete(id) => {
+                    let kw = if v % 2 == 0 { "DELETE" } else { "DETACH DELETE" };
+                    self.run_mut(&format!("MATCH (n) WHERE id(n) = {} {} n", id, kw))?;
+                    Ok(Obs::Nothing)
+                }
+                Op::Noise(id, kind) => {
+                    let q = match kind % 4 {
+                        0 => format!("MATCH (n) WHERE id(n) = {} SET n.name = 'z{}'", id, step),
+                        1 => format!("MATCH (n) WHERE id(n) = {} SET n:Tag", id),
+                        2 => format!("MATCH (n) WHERE id(n) = {} REMOVE n:Tag", id),
+                        _ => format!("MATCH (n) WHERE id(n) = {} SET n.other = [0.5, 1.5]", id),
+                    };
+                    self.run_mut(&q)?;
+                    Ok(Obs::Nothing)
+                }
+                Op::Search(qi, k) => {
+                    let q = format!(
+                        "CALL db.index.vector.queryNodes('{}', '{}', {}, {}) YIELD node, score RETURN id(node), score",
+                        L,
+                        P,
+                        vec_lit(&s.queries[*qi], false),
+                        k
+                    );
+                    match self.engine.execute(&q, &self.store) {
+                        Ok(b) => {
+                            let mut rows = Vec::new();
+                            for r in &b.records {
+                                let id = int_of(r.get("id(node)")).ok_or("search row without id(node)")?;
+                                let sc = float_of(r.get("score")).ok_or("search row without score")?;
+                                rows.push((id as u64, sc));
+                            }
+                            Ok(Obs::Res(Some(rows), String::new()))
+                        }
+                        Err(e) => Ok(Obs::Res(None, e.to_string())),
+                    }
+                }
+            }
+        } else {
+            let st = &mut self.store;
+            match op {
+                Op::Create(lbl, p) => {
+                    let labels: Vec<Label> = if *lbl {
+                        if v % 3 == 0 { vec![Label::new(L), Label::new("Tag")] } else { vec![Label::new(L)] }
+                    } else if v % 2 == 0 {
+                        vec![Label::new("Other")]
+                    } else {
+                        vec![]
+                    };
+                    let id = if v % 2 == 0 {
+                        let mut props = HashMap::new();
+                        props.insert("name".to_string(), PropertyValue::String(format!("n{}", step)));
+                        if let Some(pv) = p {
+                            props.insert(P.to_string(), pv_value(s, pv, v % 5 == 0));
+                        }
+                        st.create_node_with_properties("default", labels, props)
+                    } else {
+                        let id = st.create_node_with_labels(labels);
+                        if let Some(pv) = p {
+                            st.set_node_property("default", id, P, pv_value(s, pv, v % 5 == 0)).map_err(|e| e.to_string())?;
+                        }
+                        id
+                    };
+                    Ok(Obs::Id(id.as_u64()))
+                }
+                Op::SetProp(id, pv) => {
+                    let _ = st.set_node_property("default", NodeId::new(*id), P, pv_value(s, pv, v % 5 == 0));
+                    Ok(Obs::Nothing)
+                }
+                Op::RemoveProp(id) => {
+                    st.remove_node_property(NodeId::new(*id), P);
+                    Ok(Obs::Nothing)
+                }
+                Op::AddLabel(id) => {
+                    let _ = st.add_label_to_node("default", NodeId::new(*id), L);
+                    Ok(Obs::Nothing)
+                }
+                Op::RemoveLabel(id) => {
+                    let _ = st.remove_label_from_node(NodeId::new(*id), &Label::new(L));
+                    Ok(Obs::Nothing)
+                }
+                Op::Delete(id) => {
+                    let _ = st.delete_node("default", NodeId::new(*id));
+                    Ok(Obs::Nothing)
+                }
+                Op::Noise(id, kind) => {
+                    let n = NodeId::new(*id);
+                    match kind % 4 {
+                        0 => {
+                            let _ = st.set_node_property("default", n, "name", PropertyValue::String(format!("z{}", step)));
+                        }
+                        1 => {
+                            let _ = st.add_label_to_node("default", n, "Tag");
+                        }
+                        2 => {
+                            let _ = st.remove_label_from_node(n, &Label::new("Tag"));
+                        }
+                        _ => {
+                            let _ = st.set_node_property("default", n, "other", PropertyValue::Vector(vec![0.5, 1.5]));
+                        }
+                    }
+                    Ok(Obs::Nothing)
+                }
+                Op::Search(qi, k) => {
+                    let r = if v % 2 == 0 {
+                        st.vector_search(L, P, &s.queries[*qi], *k as usize)
+                    } else {
+                        st.vector_index.search(L, P, &s.queries[*qi], *k as usize)
+                    };
+                    match r {
+                        Ok(rows) => Ok(Obs::Res(Some(rows.into_iter().map(|(n, d)| (n.as_u64(), d as f64)).collect()), String::new())),
+                        Err(e) => Ok(Obs::Res(None, e.to_string())),
+                    }
+                }
+            }
+        }
+    }
+}
+
+// ---------------- the reference graph (what the operations mean) ----------------
+#[derive(Clone, Debug)]
+struct RefNode {
+    label: bool,
+    prop: Option<PV>,
+}
+
+#[derive(Default)]
+struct Reference {
+    nodes: BTreeMap<u64, RefNode>,
+}
+
+impl Reference {
+    fn has_entry(&self, s: &Setup, id: u64) -> bool {
+        match self.nodes.get(&id) {
+            Some(RefNode { label: true, prop: Some(PV::Vec(i)) }) => s.pool[*i].len() == s.dim,
+            _ => false,
+        }
+    }
+    fn apply(&mut self, op: &Op, created: Option<u64>) {
+        match op {
+            Op::Create(l, p) => {
+                if let Some(id) = created {
+                    self.nodes.insert(id, RefNode { label: *l, prop: p.clone() });
+                }
+            }
+            Op::SetProp(id, p) => {
+                if let Some(n) = self.nodes.get_mut(id) {
+                    n.prop = Some(p.clone());
+                }
+            }
+            Op::RemoveProp(id) => {
+                if let Some(n) = self.nodes.get_mut(id) {
+                    n.prop = None;
+                }
+            }
+            Op::AddLabel(id) => {
+                if let Some(n) = self.nodes.get_mut(id) {
+                    n.label = true;
+                }
+            }
+            Op::RemoveLabel(id) => {
+                if let Some(n) = self.nodes.get_mut(id) {
+                    n.label = false;
+                }
+            }
+            Op::Delete(id) => {
+                self.nodes.remove(id);
+            }
+            Op::Search(..) | Op::Noise(..) => {}
+        }
+    }
+
+    /// The property's predicates on one search answer. `index_len`: the implementation's index size.
+    fn judge(&self, s: &Setup, qi: usize, k: u64, rows: &[(u64, f64)], index_len: u64, row: &[Option<u64>]) -> Result<bool, String> {
+        let q = &s.queries[qi];
+        // eligible: live, labelled, vector of the index's dimension, finite declared distance
+        let mut elig: BTreeMap<u64, (f64, u64)> = BTreeMap::new();
+        for (id, n) in &self.nodes {
+            if let (true, Some(PV::Vec(i))) = (n.label, &n.prop) {
+                if s.pool[*i].len() == s.dim {
+                    if let Some(r) = row[*i] {
+                        elig.insert(*id, (d64(s.metric, q, &s.pool[*i]), r));
+                    }
+                }
+            }
+        }
+        let mut seen = BTreeSet::new();
+        let mut prev_rank: Option<u64> = None;
+        let mut ties = false;
+        for (id, score) in rows {
+            // live / label / property
+            match self.nodes.get(id) {
+                None => return Err(format!("returned node {} which does not exist (deleted)", id)),
+                Some(n) if !n.label => return Err(format!("returned node {} which does not carry :{}", id, L)),
+                Some(n) => match &n.prop {
+                    Some(PV::Vec(i)) if s.pool[*i].len() == s.dim => {}
+                    other => return Err(format!("returned node {} whose {} is {:?}, not a vector of the index's dimension", id, P, other)),
+                },
+            }
+            // at most once
+            if !seen.insert(*id) {
+                return Err(format!("returned node {} twice", id));
+            }
+            let (d, r) = match elig.get(id) {
+                Some(x) => *x,
+                None => return Err(format!("returned node {} whose declared distance is not finite", id)),
+            };
+            // ranked by the declared distance to the CURRENT vector
+            if (score - d).abs() > 10.0 * tol(d) {
+                return Err(format!(
+                    "node {} reported at distance {} but the {:?} distance to its current vector is {}",
+                    id, score, s.metric, d
+                ));
+            }
+            if let Some(p) = prev_rank {
+                if r < p {
+                    return Err(format!("not sorted by {:?} distance: node {} (rank {}) after rank {}", s.metric, id, r, p));
+                }
+                if r == p {
+                    ties = true;
+                }
+            }
+            prev_rank = Some(r);
+        }
+        if rows.len() as u64 > k {
+            return Err(format!("{} rows for k = {}", rows.len(), k));
+        }
+        if index_len <= 128 {
+            let want = (k as usize).min(elig.len());
+            if rows.len() != want {
+                return Err(format!("{} rows, expected min(k = {}, {} eligible nodes) = {}", rows.len(), k, elig.len(), want));
+            }
+            let worst = rows.iter().map(|(id, _)| elig[id].1).max();
+            for (id, (_, r)) in &elig {
+                if !seen.contains(id) {
+                    if let Some(w) = worst {
+                        if *r < w {
+                            return Err(format!("omitted node {} (rank {}) is nearer than a returned node (rank {})", id, r, w));
+                        }
+                    }
+                }
+            }
+        }
+        Ok(ties)
+    }
+}
+
+// ---------------- Gallina ----------------
+fn g_pv(s: &Setup, p: &PV) -> String {
+    match p {
+        PV::Vec(i) => format!("(PVec ({}, {}))", i, g_bool(s.pool[*i].len() == s.dim)),
+        PV::Other(_) => "POther".to_string(),
+    }
+}
+fn g_op(s: &Setup, o: &Op) -> String {
+    match o {
+        Op::Create(l, p) => format!("Create {} {}", g_bool(*l), g_opt(p.as_ref().map(|x| g_pv(s, x)))),
+        Op::SetProp(id, p) => format!("SetProp {} {}", id, g_pv(s, p)),
+        Op::RemoveProp(id) => format!("RemoveProp {}", id),
+        Op::AddLabel(id) => format!("AddLabel {}", id),
+        Op::RemoveLabel(id) => format!("RemoveLabel {}", id),
+        Op::Delete(id) => format!("Delete {}", id),
+        Op::Search(qi, k) => format!("Search ({}, {}) {}", qi, g_bool(s.queries[*qi].len() == s.dim), k),
+        Op::Noise(..) => "Noise".to_string(),
+    }
+}
+
+fn run_case(out: &mut Out, s: &Setup, ops: &[Op], kind: &str) {
+    let idx = out.next_index();
+    if !out.wants(idx) {
+        out.skip();
+        return;
+    }
+    let human = format!(
+        "{} {} {:?} dim={} idx2={} var={} pool={:?} queries={:?} ops={:?}",
+        kind,
+        if s.cypher { "cypher" } else { "api" },
+        s.metric,
+        s.dim,
+        s.second_index,
+        s.variant,
+        s.pool,
+        s.queries,
+        ops
+    );
+    let rows_tbl: Vec<Vec<Option<u64>>> = s.queries.iter().map(|q| rank_row(s, q)).collect();
+    let mut sut = match Sut::new(s) {
+        Ok(x) => x,
+        Err(e) => {
+            let i = out.case("([], [])".to_string(), human.clone(), false);
+            out.fail(i, &human, &format!("index creation failed: {}", e), None);
+            return;
+        }
+    };
+    let mut reference = Reference::default();
+    let mut obs_g: Vec<String> = Vec::new();
+    let mut bad: Option<String> = None;
+    let mut deleted_any = false;
+    for (step, op) in ops.iter().enumerate() {
+        // generator health, judged on the reference before the operation
+        match op {
+            Op::SetProp(id, PV::Vec(_)) if reference.has_entry(s, *id) => out.count("update_of_indexed"),
+            Op::SetProp(id, PV::Other(_)) if reference.has_entry(s, *id) => out.count("unvector_of_indexed"),
+            Op::RemoveProp(id) if reference.has_entry(s, *id) => out.count("removeprop_of_indexed"),
+            Op::RemoveLabel(id) if reference.has_entry(s, *id) => out.count("removelabel_of_indexed"),
+            Op::Delete(id) if reference.has_entry(s, *id) => {
+                deleted_any = true;
+                out.count("delete_of_indexed")
+            }
+            Op::Delete(id) if reference.nodes.contains_key(id) => deleted_any = true,
+            Op::Create(..) if deleted_any => out.count("create_after_delete"),
+            _ => {}
+        }
+        let r = catch(std::panic::AssertUnwindSafe(|| sut.apply(s, op, step as u64)));
+        let o = match r {
+            Ok(Ok(o)) => o,
+            Ok(Err(e)) => {
+                if bad.is_none() {
+                    bad = Some(format!("step {} {:?}: statement failed: {}", step, op, e));
+                }
+                Obs::Nothing
+            }
+            Err(p) => {
+                if bad.is_none() {
+                    bad = Some(format!("step {} {:?}: panic: {}", step, op, p));
+                }
+                Obs::Nothing
+            }
+        };
+        let len = sut.index_len();
+        let created = if let Obs::Id(id) = &o { Some(*id) } else { None };
+        reference.apply(op, created);
+        let og = match (&o, op) {
+            (Obs::Id(id), _) => format!("CId {}", id),
+            (Obs::Res(Some(rows), _), Op::Search(qi, k)) => {
+                out.count("searches");
+                if !rows.is_empty() {
+                    out.count("searches_nonempty");
+                }
+                if len > 128 {
+                    out.count("searches_above_128");
+                }
+                match reference.judge(s, *qi, *k, rows, len, &rows_tbl[*qi]) {
+                    Ok(ties) => {
+                        if ties {
+                            out.count("results_with_ties");
+                        }
+                        if (rows.len() as u64) == *k && *k > 0 {
+                            out.count("truncated_to_k");
+                        }
+                    }
+                    Err(e) => {
+                        if bad.is_none() {
+                            bad = Some(format!("step {} {:?}: {} (answer {:?})", step, op, e, rows));
+                        }
+                    }
+                }
+                format!("CRes (Some {})", g_list(rows.iter().map(|(id, _)| format!("{}", id))))
+            }
+            (Obs::Res(None, e), Op::Search(qi, _)) => {
+                out.count("searches");
+                if s.queries[*qi].len() == s.dim {
+                    if bad.is_none() {
+                        bad = Some(format!("step {} {:?}: search failed: {}", step, op, e));
+                    }
+                } else {
+                    out.count("query_wrong_dimension");
+                }
+                "CRes None".to_string()
+            }
+            _ => "CNone".to_string(),
+        };
+        obs_g.push(format!("({}, {}, {})", g_op(s, op), og, if len == u64::MAX { 999_999_999 } else { len }));
+    }
+    match s.metric {
+        Metric::Cosine => out.count("metric_cosine"),
+        Metric::L2 => out.count("metric_l2"),
+        Metric::Dot => out.count("metric_dot"),
+    }
+    if s.cypher {
+        out.count("through_cypher");
+    } else {
+        out.count("through_api");
+    }
+    out.count_n("ops", ops.len() as u64);
+    let table = g_list(rows_tbl.iter().enumerate().map(|(qi, row)| {
+        format!(
+            "({}, {})",
+            qi,
+            g_list(row.iter().enumerate().map(|(vi, r)| format!("({}, {})", vi, g_opt(r.map(|x| format!("{}", x))))))
+        )
+    }));
+    let g = format!("({}, {})", table, g_list(obs_g.into_iter()));
+    let i = out.case(g, human.clone(), ops.len() > 1);
+    if let Some(b) = bad {
+        out.fail(i, &human, &b, None);
+    }
+}
+
+// ---------------- generators ----------------
+const GRID: [f32; 9] = [-2.0, -1.0, -0.5, 0.0, 0.5, 1.0, 2.0, 3.0, 0.25];
+
+fn gen_vec(r: &mut Rng, dim: usize, fine: bool) -> Vec<f32> {
+    (0..dim)
+        .map(|_| if fine { (r.range(0, 32) as f32 - 16.0) * 0.25 } else { *r.pick(&GRID) })
+        .collect()
+}
+
+fn gen_setup(r: &mut Rng, npool: usize, fine: bool) -> Setup {
+    let cypher = r.chance(1, 2);
+    let metric = if cypher {
+        if r.chance(1, 2) { Metric::L2 } else { Metric::Cosine }
+    } else {
+        match r.below(5) {
+            0 | 1 => Metric::L2,
+            2 | 3 => Metric::Cosine,
+            _ => Metric::Dot,
+        }
+    };
+    let dim = r.range(2, 4) as usize;
+    let mut pool: Vec<Vec<f32>> = Vec::new();
+    while pool.len() < npool {
+        let c = r.below(20);
+        let v = if c == 0 && !pool.is_empty() {
+            pool[r.below(pool.len() as u64) as usize].clone() // exact duplicate: a tie under every metric
+        } else if c == 1 && !pool.is_empty() {
+            pool[r.below(pool.len() as u64) as usize].iter().map(|x| x * 2.0).collect() // same direction: cosine tie
+        } else if c == 2 {
+            let wd = if r.chance(1, 2) { dim + 1 } else { dim - 1 };
+            gen_vec(r, wd, fine) // wrong dimension
+        } else if c == 3 && !cypher {
+            let mut v = gen_vec(r, dim, fine);
+            let j = r.below(dim as u64) as usize;
+            v[j] = if r.chance(1, 2) { f32::NAN } else { f32::INFINITY }; // non-finite distance
+            v
+        } else if c == 4 {
+            vec![0.0; dim] // zero vector
+        } else if c == 5 {
+            vec![] // empty list: a vector of dimension 0
+        } else {
+            gen_vec(r, dim, fine)
+        };
+        pool.push(v);
+    }
+    let nq = r.range(1, 3) as usize;
+    let mut queries: Vec<Vec<f32>> = (0..nq).map(|_| gen_vec(r, dim, fine)).collect();
+    if r.chance(1, 12) {
+        queries.push(gen_vec(r, dim + 1, fine)); // a query of the wrong dimension: error expected
+    }
+    if r.chance(1, 6) && !pool.is_empty() {
+        let v = &pool[r.below(pool.len() as u64) as usize];
+        if v.len() == dim && cypher_ok(v) {
+            queries.push(v.clone()); // query equal to a stored vector
+        }
+    }
+    Setup { cypher, metric, dim, pool, queries, second_index: r.chance(1, 4), variant: r.below(1000) }
+}
+
+fn gen_pv(r: &mut Rng, s: &Setup) -> PV {
+    if r.chance(1, 8) {
+        PV::Other(r.below(3) as u8)
+    } else {
+        PV::Vec(r.below(s.pool.len() as u64) as usize)
+    }
+}
+
+fn gen_ops(r: &mut Rng, s: &Setup, n: usize, first_creates: usize) -> Vec<Op> {
+    let mut ops = Vec::new();
+    let mut made = 0u64;
+    for i in 0..n {
+        let hi = made + 1;
+        let id = r.range(1, hi.max(1));
+        let c = if i < first_creates { 0 } else { r.below(100) };
+        let op = if c < 22 {
+            made += 1;
+            let p = if r.chance(1, 10) { None } else { Some(gen_pv(r, s)) };
+            Op::Create(r.chance(5, 6), p)
+        } else if c < 40 {
+            Op::SetProp(id, gen_pv(r, s))
+        } else if c < 46 {
+            Op::RemoveProp(id)
+        } else if c < 52 {
+            Op::AddLabel(id)
+        } else if c < 58 {
+            Op::RemoveLabel(id)
+        } else if c < 66 {
+            Op::Delete(id)
+        } else if c < 71 {
+            Op::Noise(id, r.below(4) as u8)
+        } else {
+            let k = match r.below(12) {
+                0 => 0,
+                1 => 1_000_000,
+                _ => r.range(1, 6),
+            };
+            Op::Search(r.below(s.queries.len() as u64) as usize, k)
+        };
+        ops.push(op);
+    }
+    ops.push(Op::Search(0, r.range(1, 8)));
+    ops
 }
 
 fn main() {
-    let engine = QueryEngine::new();
-    let mut store = GraphStore::new();
-    exec(&engine, &mut store, "CREATE VECTOR INDEX ix FOR (n:Doc) ON (n.emb) OPTIONS {dimensions: 2, similarity: 'l2'}");
-    exec(&engine, &mut store, "CREATE (n:Doc {uid: 1, emb: [1.0, 0.0]}) RETURN id(n)");
-    exec(&engine, &mut store, "CREATE (n:Doc {uid: 2, emb: [0.0, 1.0]}) RETURN n");
-    exec(&engine, &mut store, "CREATE (n:Doc {uid: 3, emb: [10.0, 1.0]}) RETURN id(n)");
-    let q = "CALL db.index.vector.queryNodes('Doc', 'emb', [2.0, 0.5], 5) YIELD node, score RETURN node, score";
-    println!("L2 index, query [2,0.5]: L2 order should be 1 (1.118), 2 (2.06), 3 (8.0); cosine order 1? 3, 1, 2");
-    show(&engine, &store, q);
-    println!("update node 2's vector:");
-    exec(&engine, &mut store, "MATCH (n) WHERE id(n) = 2 SET n.emb = [2.0, 0.5]");
-    show(&engine, &store, q);
-    println!("len = {}", store.vector_index.get_index("Doc", "emb").unwrap().read().unwrap().len());
-    println!("remove property of node 1:");
-    exec(&engine, &mut store, "MATCH (n) WHERE id(n) = 1 REMOVE n.emb");
-    show(&engine, &store, q);
-    println!("remove label of node 3:");
-    exec(&engine, &mut store, "MATCH (n) WHERE id(n) = 3 REMOVE n:Doc");
-    show(&engine, &store, q);
-    println!("delete node 2:");
-    exec(&engine, &mut store, "MATCH (n) WHERE id(n) = 2 DELETE n");
-    show(&engine, &store, q);
-    show(&engine, &store, "CALL db.index.vector.queryNodes('Doc', 'emb', [2.0, 0.5], 5) YIELD node, score RETURN node.uid, score");
-    println!("create an unrelated node (id reuse):");
-    exec(&engine, &mut store, "CREATE (n:Other {uid: 9}) RETURN id(n)");
-    show(&engine, &store, "CALL db.index.vector.queryNodes('Doc', 'emb', [2.0, 0.5], 5) YIELD node, score RETURN node.uid, labels(node), score");
-    println!("set to non-vector / wrong dimension:");
-    exec(&engine, &mut store, "CREATE (n:Doc {uid: 10, emb: [3.0, 3.0]}) RETURN id(n)");
-    exec(&engine, &mut store, "MATCH (n {uid: 10}) SET n.emb = 'hello'");
-    show(&engine, &store, "CALL db.index.vector.queryNodes('Doc', 'emb', [2.0, 0.5], 5) YIELD node, score RETURN node.uid, node.emb, score");
-    // API path
-    let mut s2 = GraphStore::new();
-    s2.create_vector_index("P", "e", 2, DistanceMetric::InnerProduct).unwrap();
-    let mut props = std::collections::HashMap::new();
-    props.insert("e".to_string(), PropertyValue::Vector(vec![1.0, 0.0]));
-    let a = s2.create_node_with_properties("default", vec![Label::new("P")], props);
-    s2.set_node_property("default", a, "e", PropertyValue::Vector(vec![0.0, 1.0])).unwrap();
-    println!("API: {:?}", s2.vector_search("P", "e", &[1.0, 0.0], 5));
-    let _ = NodeId::new(1);
+    quiet_panics();
+    let args = parse_args();
+    let mut out = Out::new(&args, "From Verif Require Import Vector.", "Vector.case", "Vector.check_case", if args.thorough { 150 } else { 60 });
+    out.rule = "exhaustive: every sequence of <=3 operations from an 8-operation alphabet over two nodes \
+                (create labelled/unlabelled, update vector, set non-vector, remove property, add/remove label, delete), \
+                a search after every operation, through the API and through Cypher, L2 and cosine; random: histories of \
+                8-30 operations (create / update / non-vector / wrong-dimension / remove property / relabel / delete with id \
+                reuse / noise / search with k in {0,1..6,10^6}) over pools of 4-10 vectors of dimension 2-4 (duplicates, \
+                scaled copies, zero, empty, NaN/inf components through the API), metrics cosine/L2 (+ inner product through \
+                the API), both entry points; indexes of 100-128 entries (quick) and 129-400 entries (thorough, HNSW path, \
+                incl. enough updates to force a rebuild). Non-trivial = more than one operation; distinct by case text."
+        .to_string();
+
+    // ---- exhaustive small scope ----
+    let ex_pool: Vec<Vec<f32>> = vec![vec![1.0, 0.0], vec![10.0, 1.0], vec![0.0, 1.0]];
+    let alphabet: Vec<Op> = vec![
+        Op::Create(true, Some(PV::Vec(0))),
+        Op::Create(false, Some(PV::Vec(1))),
+        Op::SetProp(1, PV::Vec(2)),
+        Op::SetProp(1, PV::Other(0)),
+        Op::RemoveProp(1),
+        Op::AddLabel(2),
+        Op::RemoveLabel(1),
+        Op::Delete(1),
+    ];
+    let mut seqs: Vec<Vec<usize>> = Vec::new();
+    for a in 0..alphabet.len() {
+        seqs.push(vec![a]);
+        for b in 0..alphabet.len() {
+            seqs.push(vec![a, b]);
+            for c in 0..alphabet.len() {
+                seqs.push(vec![a, b, c]);
+            }
+        }
+    }
+    for (n, sq) in seqs.iter().enumerate() {
+        let s = Setup {
+            cypher: n % 2 == 0,
+            metric: if (n / 2) % 2 == 0 { Metric::L2 } else { Metric::Cosine },
+            dim: 2,
+            pool: ex_pool.clone(),
+            queries: vec![vec![2.0, 0.5]],
+            second_index: false,
+            variant: 1 + (n as u64 % 7),
+        };
+        let mut ops = vec![Op::Create(true, Some(PV::Vec(1)))]; // node 1 exists from the start
+        ops.push(Op::Search(0, 5));
+        for a in sq {
+            ops.push(alphabet[*a].clone());
+            ops.push(Op::Search(0, 5));
+        }
+        run_case(&mut out, &s, &ops, "exhaustive");
+    }
+
+    // ---- random histories ----
+    let n_small: u64 = if args.thorough { 9000 } else { 900 };
+    let big_every: u64 = if args.thorough { 120 } else { 180 };
+    for c in 0..n_small {
+        let mut r = Rng::for_case(args.seed, c);
+        if c % big_every == big_every - 1 {
+            // a large index: 100-128 entries (quick), 129-400 (thorough)
+            let (lo, hi) = if args.thorough { (129, 400) } else { (100, 128) };
+            let target = r.range(lo, hi) as usize;
+            let mut s = gen_setup(&mut r, target + 8, true);
+            s.second_index = false;
+            if args.thorough && s.cypher && r.chance(1, 2) {
+                s.cypher = false; // the API is much faster for hundreds of statements
+            }
+            // make the first `target` pool vectors indexable and finite
+            for i in 0..target {
+                if s.pool[i].len() != s.dim || !cypher_ok(&s.pool[i]) {
+                    s.pool[i] = gen_vec(&mut r, s.dim, true);
+                }
+            }
+            let mut ops: Vec<Op> = (0..target).map(|i| Op::Create(true, Some(PV::Vec(i)))).collect();
+            ops.push(Op::Search(0, r.range(1, 12)));
+            let churn = if args.thorough && r.chance(1, 4) { target + 140 } else { r.range(10, 40) as usize };
+            for _ in 0..churn {
+                let id = r.range(1, target as u64 + 3);
+                let op = match r.below(10) {
+                    0 | 1 | 2 | 3 => Op::SetProp(id, gen_pv(&mut r, &s)),
+                    4 => Op::Delete(id),
+                    5 => Op::RemoveLabel(id),
+                    6 => Op::Create(true, Some(gen_pv(&mut r, &s))),
+                    7 => Op::RemoveProp(id),
+                    _ => Op::Search(r.below(s.queries.len() as u64) as usize, r.range(1, 15)),
+                };
+                ops.push(op);
+            }
+            ops.push(Op::Search(0, r.range(1, 20)));
+            ops.push(Op::Search(0, 1_000_000));
+            run_case(&mut out, &s, &ops, "large");
+        } else {
+            let npool = r.range(4, 10) as usize;
+            let s = gen_setup(&mut r, npool, false);
+            let n = r.range(8, 30) as usize;
+            let first = r.range(1, 4) as usize;
+            let ops = gen_ops(&mut r, &s, n, first);
+            run_case(&mut out, &s, &ops, "random");
+        }
+    }
+    out.finish();
 }
